@@ -3,11 +3,11 @@
    isPlainHostName, isResolvable, localHostOrDomainIs, shExpMatch) and of
    pac/pac_ipv4.go (dnsResolve, myIpAddress).  The JavaScript bodies are
    transcribed by hand (goja is not modelled); shExpMatch's regular expression
-   is given the regexp semantics of G17.Model.  No proofs here. *)
+   is given the regexp semantics of G17.Regex.  No proofs here. *)
 From FwdLib Require Export Bytes.
-From G17 Require Model.
+From G17 Require Regex.
 From G14 Require Export Tables.
-Module R := G17.Model.
+Module R := G17.Regex.
 
 Open Scope N_scope.
 
